@@ -73,10 +73,10 @@ theorem C18_counterexample_complete_requires_consecutive :
 metadata file; ca1e912 copy onto itself keeps the object; d6f1a3c head_object tells a missing key from a missing bucket;
 24de822 delete_bucket refuses a bucket that holds objects; 20fee59 delete_object of a key that does not exist succeeds; cc244fc (and 20fee59 for delete_object) an object in a bucket
 that does not exist is `NoSuchBucket`, not `NoSuchKey`; 0f31b61 delete_objects on a bucket that does not exist is `NoSuchBucket`; 42c2f29 head_object returns the ETag;
-0932917 complete_multipart_upload validates the part list and the part files before it changes anything: a failed complete leaves the upload in place, a part that was never uploaded is `InvalidPart`;
-38336b0 operations on an upload that does not exist answer `NoSuchUpload`;
-531fc88 upload_part and upload_part_copy refuse a part number outside 1..10000;
-cf67827 complete_multipart_upload replaces the metadata and the checksum record of the object it replaces;
+0096ef4 complete_multipart_upload validates the part list and the part files before it changes anything: a failed complete leaves the upload in place, a part that was never uploaded is `InvalidPart`;
+4609ab3 operations on an upload that does not exist answer `NoSuchUpload`;
+205d9a8 upload_part and upload_part_copy refuse a part number outside 1..10000;
+47e9b00 complete_multipart_upload replaces the metadata and the checksum record of the object it replaces;
 b89afe2 ranged reads: covered for all ranges by `C18_get_refines_partial` and `C18_range_check`, the kernel cannot
 evaluate the decimal formatter of `Content-Range`) -/
 
